@@ -54,6 +54,17 @@ func shortFn(f *ssa.Function) string {
 
 func (fv *FuncVC) call(v ssa.Value, cc *ssa.CallCommon, instr ssa.Instruction) {
 	fv.callN++
+	fv.inCall = true
+	fv.curCallHasFuncArg = false
+	if _, isClosure := cc.Value.(*ssa.MakeClosure); isClosure || (!cc.IsInvoke() && cc.StaticCallee() == nil) {
+		fv.curCallHasFuncArg = true
+	}
+	for _, a := range cc.Args {
+		if _, isSig := a.Type().Underlying().(*types.Signature); isSig {
+			fv.curCallHasFuncArg = true
+		}
+	}
+	defer func() { fv.inCall = false }()
 	pos := instr.Pos()
 	if b, ok := cc.Value.(*ssa.Builtin); ok {
 		fv.builtin(v, b, cc, pos)
@@ -75,6 +86,42 @@ func (fv *FuncVC) call(v ssa.Value, cc *ssa.CallCommon, instr ssa.Instruction) {
 	}
 	tracked := fv.P.trackedName(cc)
 	var res []Val
+	// a pointer to a struct that lives inside another object (embedded struct, local): the callee
+	// works on a temporary object holding a copy, which is copied back afterwards (sound as long
+	// as the callee does not retain the pointer)
+	type copyBack struct {
+		lv  *LValue
+		ref string
+		t   types.Type
+	}
+	var backs []copyBack
+	if f := cc.StaticCallee(); f != nil && fv.P.inModule(f) {
+		for i := range args {
+			if args[i].LV == nil {
+				continue
+			}
+			pt, ok := ats[i].Underlying().(*types.Pointer)
+			if !ok {
+				continue
+			}
+			if _, isStruct := pt.Elem().Underlying().(*types.Struct); !isStruct || opaqueStruct(pt.Elem()) {
+				continue
+			}
+			if args[i].LV.Kind == LAlloc && len(args[i].LV.Path) == 0 && false {
+				continue
+			}
+			cur := fv.load(fv.cur, args[i].LV)
+			r := fv.newRef("tmpobj", ats[i])
+			fv.storeStructRef(fv.cur, r.S, pt.Elem(), cur)
+			backs = append(backs, copyBack{args[i].LV, r.S, pt.Elem()})
+			args[i] = Val{T: r}
+		}
+	}
+	defer func() {
+		for _, b := range backs {
+			fv.store(fv.cur, b.lv, fv.loadStructRef(fv.cur, b.ref, b.t))
+		}
+	}()
 	if fv.inert && !fv.inertAllowed(cc) {
 		what := "dynamic call"
 		if cc.IsInvoke() {
@@ -99,6 +146,12 @@ func (fv *FuncVC) call(v ssa.Value, cc *ssa.CallCommon, instr ssa.Instruction) {
 		f := cc.StaticCallee()
 		if fv.native(v, f, cc, args, ats, rts, pos) {
 			return
+		}
+		fv.closureBindings = nil
+		if mc, ok := cc.Value.(*ssa.MakeClosure); ok {
+			for _, b := range mc.Bindings {
+				fv.closureBindings = append(fv.closureBindings, fv.operand(b))
+			}
 		}
 		if c := fv.P.CS.ByKey[f.String()]; c != nil {
 			res = fv.applyContract(c, f, args, ats, rts, pos, shortFn(f), tracked)
@@ -255,8 +308,45 @@ func (fv *FuncVC) bindParams(env *Env, c *Contract, callee *ssa.Function, args [
 	}
 }
 
+// syncCellsOut / syncCellsIn: local variables whose address is handed to a callee (closure
+// bindings, pointer arguments) live, for the duration of the call, in the heap cell the callee's
+// contract talks about (deref(p)); afterwards the local takes the cell's value back.
+func (fv *FuncVC) cellLV(a *ssa.Alloc, addr string) *LValue {
+	elem := a.Type().(*types.Pointer).Elem()
+	s := fv.sortOf(elem)
+	return &LValue{Kind: LCell, Ref: addr, HKey: "cell." + sortTag(s, fv.Mode), HSort: s, Type: elem}
+}
+
+func (fv *FuncVC) syncCellsOut(vals []Val) map[*ssa.Alloc]string {
+	out := map[*ssa.Alloc]string{}
+	for _, v := range vals {
+		if v.LV == nil || v.LV.Kind != LAlloc || len(v.LV.Path) != 0 {
+			continue
+		}
+		a := v.LV.Alloc
+		elem := a.Type().(*types.Pointer).Elem()
+		if _, isStruct := elem.Underlying().(*types.Struct); isStruct && !opaqueStruct(elem) {
+			continue
+		}
+		addr := fv.asTerm(v, a.Type()).S
+		fv.store(fv.cur, fv.cellLV(a, addr), fv.lvRoot(fv.cur, v.LV))
+		out[a] = addr
+	}
+	return out
+}
+
+func (fv *FuncVC) syncCellsIn(m map[*ssa.Alloc]string) {
+	for a, addr := range m {
+		fv.cur.cells[a] = fv.load(fv.cur, fv.cellLV(a, addr))
+	}
+}
+
 func (fv *FuncVC) applyContract(c *Contract, callee *ssa.Function, args []Val, ats []types.Type, rts []types.Type, pos token.Pos, label string, tracked string) []Val {
 	tag := fmt.Sprintf("call%d", fv.callN)
+	fv.bindingEscape = true
+	synced := fv.syncCellsOut(append(append([]Val{}, args...), fv.closureBindings...))
+	fv.bindingEscape = false
+	defer fv.syncCellsIn(synced)
 	if c.Trusted {
 		fv.trustedUse[c.Key] = true
 	}
@@ -264,6 +354,15 @@ func (fv *FuncVC) applyContract(c *Contract, callee *ssa.Function, args []Val, a
 	env := fv.newEnv(fv.cur, pre)
 	env.pkgOverride = c.Pkg
 	fv.bindParams(env, c, callee, args, ats)
+	if callee != nil && len(fv.closureBindings) == len(callee.FreeVars) {
+		for i, fvar := range callee.FreeVars {
+			b := fv.closureBindings[i]
+			b.T = fv.asTerm(b, fvar.Type())
+			b.T.Go = fvar.Type()
+			b.LV = nil
+			env.names[fvar.Name()] = b
+		}
+	}
 	for _, r := range c.Requires {
 		t := env.evalBool(r.E, r)
 		fv.oblige("pre", fmt.Sprintf("%s.%d", label, r.Idx), r.Props, pos, t, r.Src)
